@@ -501,6 +501,7 @@ int main(int argc, char **argv) {
             if (v_thorough() && items[i] > 129 && (s == 1 || s == 3)) continue;
             model.max_depth = v_thorough() ? 9 : (items[i] <= 8 ? 8 : 7);
             esx_run(&model);
+        ESX_CYCLES(&model);
         }
     v_finish();
     return (v_sh->viol_count || rc) ? 1 : 0;
